@@ -232,7 +232,7 @@ PROPS['C18'] = dict(
          'non-trivial = multi-byte code point or input starting with a byte >= 0x80; distinct = code points (enumerated, distinct by construction) + hash of decoded tape cases',
     assumptions=COMMON_ASSUME + ['a stray continuation byte decoding as a 1-byte character is not judged: the statement only constrains multi-byte acceptance',
                                  'a_utf_length_ (unchecked counter) is only required to be memory-safe on arbitrary input and exact on well-formed input'],
-    units=lambda tier, seed: [Unit('utf8', 'exec/C18.cc', ['utf.c'], tape_len=64, enum=True)],
+    units=lambda tier, seed: [Unit('utf8', 'exec/C18.cc', ['a.c', 'utf.c', 'str.c'], tape_len=64, enum=True)],
     plan={'quick': dict(rc_procs=6, rc_cases=60000, fuzz_procs=4, fuzz_secs=20, enum_shards=6, enum_tier=0),
           'thorough': dict(rc_procs=6, rc_cases=600000, fuzz_procs=6, fuzz_secs=180, enum_shards=16, enum_tier=1)},
     has_enum=True, exhaustive_when_enum=False,
